@@ -712,6 +712,16 @@ func TestC13(t *testing.T) {
 			c.Fail(ev.Sig{"op": "bubble-leak", "pattern": aNames[sc.pattern], "schedule": sNames[sc.schedule]}, nil, nil, "goroutines left blocked after the scenario: %s; %s", leak, sc.String())
 		}
 	})
+	// budgets that mean "for ever": the top of uint, and the values around the top of int
+	huge := []uint{^uint(0), ^uint(0) - 1, 1 << 63, 1<<63 - 1, 1 << 62}
+	rec.Suite("huge-budgets", len(huge)*3, func(c *ev.Case) {
+		b, at := huge[c.I%len(huge)], 1+c.I/len(huge)
+		c.Class("huge-budget/%d/answers-transmission=%d", c.I%len(huge), at)
+		leak := runBubbleWD(t, rec, c, 60*time.Second, func() { runHugeBudget(c, ctx, "C13", b, 1, at, true) })
+		if leak != "" && !c.Failed() {
+			c.Fail(ev.Sig{"op": "bubble-leak"}, nil, nil, "goroutines left blocked: %s", leak)
+		}
+	})
 	rec.Suite("client-write-faults", 4*3*4, func(c *ev.Case) {
 		N, k, errs := c.I%4, 1+(c.I/4)%3, 1+(c.I/12)%4
 		c.Class("write-faults/N=%d/first=%d/errors=%d", N, k, errs)
@@ -736,4 +746,83 @@ func TestC13(t *testing.T) {
 			c.Fail(ev.Sig{"op": "bubble-leak", "role": "server"}, nil, nil, "goroutines left blocked after the scenario: %s", leak)
 		}
 	})
+}
+
+// runHugeBudget: budgets that mean "for ever" (MaxRetransmits near or at the top of uint).
+// The peer answers the CER number cerAt and, of every watchdog request, the transmission
+// number dwrAt: the dial succeeds, the connection is never closed by the client.
+// Returns the number of CERs and DWRs seen. Shared by C12 (watchdog off) and C13.
+func runHugeBudget(c *ev.Case, ctx *lib.Ctx, prop string, budget uint, cerAt, dwrAt int, watchdog bool) {
+	sig := func(op string) ev.Sig { return ev.Sig{"op": op, "budget": "huge"} }
+	settings := &sm.Settings{OriginHost: "cli.local", OriginRealm: "realm.local", VendorID: 13, ProductName: "verif",
+		HostIPAddresses: []datatype.Address{datatype.Address([]byte{192, 0, 2, 9})}}
+	machine := sm.New(settings)
+	cli := &sm.Client{Dict: ctx.Parser, Handler: machine, MaxRetransmits: budget, RetransmitInterval: time.Second,
+		EnableWatchdog: watchdog, WatchdogInterval: 5 * time.Second,
+		AuthApplicationID: []*diam.AVP{diam.NewAVP(258, 0x40, 0, datatype.Unsigned32(4))}}
+	mc := memnet.NewConn()
+	var smu sync.Mutex
+	cers, dwrTx, rounds := 0, 0, 0
+	var lastDWR []byte
+	mc.OnWrite = func(w memnet.WriteRec) {
+		msgs, _ := peer.SplitMessages(w.Data)
+		if len(msgs) != 1 {
+			return
+		}
+		h := peer.Header(msgs[0])
+		smu.Lock()
+		defer smu.Unlock()
+		switch {
+		case h.Code == 257 && h.Flags&0x80 != 0:
+			cers++
+			if cers == cerAt {
+				mc.Feed(peer.StdCEA(h.HopByHop, h.EndToEnd, 2001, 4))
+			}
+		case h.Code == 280 && h.Flags&0x80 != 0:
+			if lastDWR != nil && bytes.Equal(lastDWR, msgs[0]) {
+				dwrTx++
+			} else {
+				lastDWR, dwrTx = append([]byte(nil), msgs[0]...), 1
+				rounds++
+			}
+			if dwrTx == dwrAt {
+				mc.Feed(peer.DWA(h.HopByHop, h.EndToEnd, 2001))
+			}
+		}
+	}
+	conn, err := cli.NewConn(mc, "peer:3868")
+	desc := fmt.Sprintf("MaxRetransmits=%d (retry for ever), RetransmitInterval 1s, WatchdogInterval 5s (enabled=%v); the peer answers CER number %d and transmission number %d of every watchdog request", budget, watchdog, cerAt, dwrAt)
+	smu.Lock()
+	nc := cers
+	smu.Unlock()
+	if err != nil || conn == nil {
+		c.Fail(sig("dial-outcome"), nil, nil, "the dial failed (%v) after %d CER transmissions although the peer answers with success; %s", err, nc, desc)
+		return
+	}
+	defer func() {
+		conn.Close()
+		time.Sleep(10 * time.Second)
+		synctest.Wait()
+	}()
+	if nc != cerAt {
+		c.Fail(sig("cer-count"), nil, nil, "%d CER transmissions, the peer answered number %d; %s", nc, cerAt, desc)
+		return
+	}
+	if watchdog {
+		time.Sleep(62 * time.Second) // a dozen watchdog periods
+		synctest.Wait()
+		smu.Lock()
+		r := rounds
+		smu.Unlock()
+		if mc.CloseCount() != 0 {
+			c.Fail(sig("closed-responsive-peer"), nil, nil, "the client closed the connection after %d watchdog rounds although every request was answered within the budget; %s", r, desc)
+			return
+		}
+		if r < 8 {
+			c.Fail(sig("round-count"), nil, nil, "%d watchdog rounds in 62 s; %s", r, desc)
+			return
+		}
+		c.Event("dwr_rounds", r)
+	}
+	c.Event("huge_budget_runs", 1)
 }
